@@ -32,7 +32,8 @@ ASSUMPTIONS = [
     "C15's subject); table rows, defaults, multipliers and load latencies are parsed independently from the YAML head",
     "shipped-model part: a zero displacement against an 'offset: ~' row and identifier displacements are left "
     "unasserted; AArch64 shipped models are not used (no valid AArch64 instruction reaches composition on them)",
-    "tables are either untyped or completely typed (partially typed tables: row choice not pinned by the property)",
+    "load tables are either untyped or completely typed (partially typed load tables: row choice not pinned by the "
+    "property); store tables may also mix rows typed for some register types with untyped rows",
     "row patterns are mutually exclusive (concrete shapes, or - wildcard regime - rows wildcarding the whole address "
     "that differ only in register type and AArch64 write-back mode), so 'the row for its addressing mode' is unique",
     "AArch64 tables declare pre_indexed/post_indexed per row as the shipped model files do; a post-indexed row is "
@@ -62,6 +63,20 @@ A_SHAPES = [s_ + (None,) for s_ in SHAPES[:4]] + [(True, False, 1, "pre"), (Fals
 @st.composite
 def tables(draw, isa, types, typed):
     rows = []
+    if typed == "mixed":
+        # store tables only: rows typed for some register types first, then (sometimes) an untyped row of the same
+        # shape - a register type without a row of its own takes the untyped row, or the default, never a row
+        # typed for another type
+        some = draw(st.lists(st.sampled_from(types), min_size=1, max_size=len(types) - 1, unique=True))
+        shapes = [["*", "*", "*"] + ([None] if isa == "aarch64" else [])] if draw(st.booleans()) else \
+            [list(sh) for sh in draw(st.lists(st.sampled_from(SHAPES if isa == "x86" else A_SHAPES[:4]), min_size=1,
+                                              max_size=3, unique=True))]
+        for sh in shapes:
+            for t in some:
+                rows.append({"shape": sh, "type": t, "uops": draw(uops_s())})
+            if draw(st.booleans()):
+                rows.append({"shape": sh, "type": None, "uops": draw(uops_s())})
+        return rows
     if draw(st.integers(0, 3)) == 0:
         # wildcard regime (spr / m1 / v2 style): rows that wildcard the whole address and differ only in register
         # type and, on AArch64, in write-back mode
@@ -104,7 +119,7 @@ def cases(draw, isa):
         forms.append({"name": "cmp%d" % i, "kinds": kinds, "uops": draw(uops_s(3)),
                       "tp": draw(st.sampled_from([1.0, 0.5, 2.0, 0.25])),
                       "lat": draw(st.sampled_from([1.0, 3.0, 4.0, 0.0, 6.0])), "roles": roles})
-    typed_l, typed_s = draw(st.booleans()), draw(st.booleans())
+    typed_l, typed_s = draw(st.booleans()), draw(st.sampled_from([False, True, "mixed"]))
     case = {
         "isa": isa, "forms": forms,
         "load_rows": draw(tables(isa, types, typed_l)), "store_rows": draw(tables(isa, types, typed_s)),
